@@ -151,7 +151,7 @@ func C19Scenario() *Scenario {
 				return []byte(fmt.Sprintf(`{"status":{"call":%d},"children":[]%s}`, id, extra))
 			}
 			hdr := map[string]string{}
-			behaviours := []string{"unknown-field-etag", "200", "200-etag", "304", "412", "429-num", "429-date", "429-none", "429-junk", "other", "unknown-field", "duplicate-field", "bad-json", "stall", "refused", "200-etag", "200-etag-reused", "other-etag", "slow-body"}
+			behaviours := []string{"unknown-field-etag", "200", "200-etag", "304", "412", "429-num", "429-date", "429-none", "429-junk", "other", "unknown-field", "duplicate-field", "bad-json", "stall", "refused", "200-etag", "200-etag-reused", "other-etag", "slow-body", "429-cut", "200-etag-cut"}
 			b := behaviours[w.T.Pick(len(behaviours), "behaviour")]
 			call.behaviour = b
 			call.expectKnown = true
@@ -258,6 +258,16 @@ func C19Scenario() *Scenario {
 				return HookAnswer{Code: 200, Body: []byte(fmt.Sprintf(`{"status":{"call":%d},"children":[],"children":[]}`, id))}
 			case "bad-json":
 				return HookAnswer{Code: 200, Body: []byte(`{"status":{"call":`)}
+			case "429-cut":
+				// the advertised delay is in the headers; that the body breaks off changes nothing
+				call.expect429 = 3 + id%5
+				return HookAnswer{Code: 429, Header: map[string]string{"Retry-After": fmt.Sprint(call.expect429), cutBodyHeader: "1"}, Body: body(`,"note":"rate limited, come back later, rate limited, come back later"`)}
+			case "200-etag-cut":
+				// an answer whose body breaks off is no answer, and nothing of it may be kept:
+				// its ETag never becomes one whose body the client holds
+				hdr["ETag"] = fmt.Sprintf("y%d", id)
+				hdr[cutBodyHeader] = "1"
+				return HookAnswer{Code: 200, Header: hdr, Body: body(`,"resyncAfterSeconds":0`)}
 			case "slow-body":
 				// status line and headers at once, the body only after the time limit of the
 				// call has passed: not an answer within the time limit
